@@ -508,6 +508,52 @@ func (s *schema) where(id int) string {
 	return "?"
 }
 
+// keyPath: the classes (keyClass) of the property names on the way from the root of its file down
+// to node id, with the depth of the object that holds each name; the last entry is the name the
+// node itself is the value of when `direct` is set.
+type keyStep struct {
+	class string
+	depth int
+}
+
+func (s *schema) keyPath(id int) (steps []keyStep, direct bool) {
+	var rec func(n *node, path []keyStep, dir bool, depth int) bool
+	rec = func(n *node, path []keyStep, dir bool, depth int) bool {
+		if n.id == id {
+			steps, direct = append([]keyStep(nil), path...), dir
+			return true
+		}
+		for i, k := range n.kids {
+			if n.kind == kObj {
+				if rec(k, append(path, keyStep{keyClass(n.keys[i]), depth}), true, depth+1) {
+					return true
+				}
+			} else if rec(k, path, false, depth+1) {
+				return true
+			}
+		}
+		return false
+	}
+	if rec(s.root, nil, false, 0) {
+		return
+	}
+	for _, t := range s.types {
+		if rec(t.root, nil, false, 0) {
+			return
+		}
+	}
+	return nil, false
+}
+
+// compiledOnly: the corruption violates a rule that only takes effect through the compilation of
+// the node (declared type against the kind of the example, a format type, an exclusive flag
+// folded into its bound, a type name of an or member).
+func compiledOnly(desc string) bool {
+	d := strings.TrimPrefix(desc, "or-")
+	return strings.HasPrefix(d, "type-") || strings.HasPrefix(d, "format-") || strings.HasPrefix(d, "container-type") ||
+		strings.HasPrefix(d, "exclusive") || strings.HasSuffix(d, "-exclusive-equal") || strings.HasPrefix(d, "member-name")
+}
+
 // examplesFor: the values the rule list of node n speaks about: the node's own
 // value and — for a type root — every referencing value.
 func (s *schema) examplesFor(n *node) []example {
@@ -970,6 +1016,12 @@ func oneSchema(i int, shortcuts bool, nc int) []outcome {
 		for _, ru := range n.rules {
 			add("a_rule_" + ru.name)
 		}
+		for _, k := range n.keys {
+			add("a_key_" + keyClass(k))
+			if c := keyClass(k); c != "ordinary" {
+				add(fmt.Sprintf("a_special_key_at_depth_%d", n.depth))
+			}
+		}
 	})
 	var outs []outcome
 	switch {
@@ -1067,6 +1119,31 @@ func runCorruption(cs *schema, violators []int, label, desc, where, class string
 			}
 		}
 	}
+	// the names of the properties the violating values sit under / below
+	seen := map[string]bool{}
+	once := func(st string) {
+		if !seen[st] {
+			seen[st] = true
+			add(st)
+		}
+	}
+	for _, v := range violators {
+		steps, direct := cs.keyPath(v)
+		for i, st := range steps {
+			if st.class == "ordinary" {
+				continue
+			}
+			rel := "below"
+			if direct && i == len(steps)-1 {
+				rel = "directly_under"
+			}
+			once("b_violator_" + rel + "_key_" + st.class)
+			once(fmt.Sprintf("b_violator_under_special_key_at_depth_%d", st.depth))
+			if compiledOnly(desc) {
+				once("b_compiled_only_rule_violated_under_key_" + st.class)
+			}
+		}
+	}
 	co.nontrivial = strings.Count(where, ">") >= 1 || strings.HasPrefix(where, "type:") || strings.HasPrefix(label, "or-")
 	model := fmt.Sprintf("Check() fails with Position() in %v (offset of the violating value) [%s at %s]", want, desc, where)
 	switch {
@@ -1109,7 +1186,9 @@ func oneKnown(i int) []outcome {
 	return []outcome{o}
 }
 
-const ruleText = "random example trees (objects/arrays/scalars, depth<=4, <=36 nodes, random leading blanks) whose nodes carry rule lists valid for their example: " +
+const ruleText = "random example trees (objects/arrays/scalars, depth<=4, <=36 nodes, random leading blanks; property names are arbitrary JSON strings: 40% of the names at every depth look like another syntactic class when quoted — " +
+	"user type names (\"@id\", \"@t1\"), comment / annotation openers (\"#x\", \"//\", \"/*\"), names that begin / end with an escaped double quote, the empty name, escape sequences incl. \\uXXXX spellings of the former, rule / type names and literals (\"or\", \"enum\", \"type\", \"null\"), structural characters) " +
+	"whose nodes carry rule lists valid for their example: " +
 	"min/max with exclusive flags, precision(+decimal), minLength/maxLength, regex, inline enum, const, formats, declared types, nullable, optional, minItems/maxItems, additionalProperties, " +
 	"or sets (type names, rule-sets, enum rule-sets, user types; exactly one member admits the example), type:any, {type:@t} / or-member references to generated scalar types " +
 	"whose ROOT carries rules of every scalar kind (bounds, lengths, regex, enum, format, type any, an or set whose members admit the type's own example and the referencing values — possibly of another kind, by another member —, " +
